@@ -132,5 +132,5 @@ def run(fx, rep):
     bodies = [x for x in sorted(fx.bodies.values(), key=lambda y: (y.loc(), y.path)) if x.crate == 'cel_interpreter' and x.raw['kind'] != 'Promoted' and not x.is_derived() and x.loc().startswith('interpreter/src/json.rs')]
     edges = P.audit(fx, rep, 'R3', bodies, ledger, 'json')
     rep.ok('R3', 'scanned', 'interpreter/src/json.rs', '%d bodies scanned, %d panic edges' % (len(bodies), len(edges)))
-    rep.floor('R1', 14)
+    rep.floor('R1', 12 if 'chrono' not in feats else 14)
     rep.floor('R2', 4)
